@@ -16,6 +16,11 @@ import (
 	"strings"
 	"time"
 
+	"github.com/corestario/kyber"
+	"github.com/corestario/kyber/pairing"
+	"github.com/corestario/kyber/pairing/bls12381"
+	"github.com/corestario/kyber/share"
+	"github.com/lidofinance/dc4bc/dkg"
 	"github.com/lidofinance/dc4bc/fsm/fsm"
 	sm "github.com/lidofinance/dc4bc/fsm/state_machines"
 	"github.com/lidofinance/dc4bc/fsm/types/requests"
@@ -213,6 +218,17 @@ func (w *fsmWorld) keep() (int, bool) {
 	return len(w.store) - 1, true
 }
 
+// real public-polynomial encodings (dkg.BLSKeyring.PubPolyBytes): a 2-commitment polynomial and
+// the same polynomial extended by a third commitment
+var polyTokA, polyTokExt = func() (string, string) {
+	suite := bls12381.NewBLS12381Suite(nil).(pairing.Suite)
+	g := suite.G1()
+	c := []kyber.Point{g.Point().Mul(g.Scalar().SetInt64(11), nil), g.Point().Mul(g.Scalar().SetInt64(22), nil), g.Point().Mul(g.Scalar().SetInt64(33), nil)}
+	a, _ := (&dkg.BLSKeyring{PubPoly: share.NewPubPoly(g, nil, c[:2])}).PubPolyBytes()
+	e, _ := (&dkg.BLSKeyring{PubPoly: share.NewPubPoly(g, nil, c)}).PubPolyBytes()
+	return hx(a), hx(e)
+}()
+
 type alphaItem struct {
 	ev   string
 	args []string
@@ -245,7 +261,7 @@ func alphabet(n int, full bool) []alphaItem {
 		add("event_dkg_commit_confirm_received", "commit", ps, "x01", T(2))
 		add("event_dkg_deal_confirm_received", "deal", ps, "x02", T(3))
 		add("event_dkg_response_confirm_received", "response", ps, "x03", T(4))
-		add("event_dkg_master_key_confirm_received", "masterKey", ps, "xaa", T(5), "x50")
+		add("event_dkg_master_key_confirm_received", "masterKey", ps, "xaa", T(5), polyTokA)
 		add("event_dkg_commit_confirm_canceled_by_error", "dkgErr", ps, hs("e"), T(2))
 		add("event_dkg_deal_confirm_canceled_by_error", "dkgErr", ps, hs("e"), T(3))
 		add("event_dkg_response_confirm_canceled_by_error", "dkgErr", ps, hs("e"), T(4))
@@ -260,9 +276,10 @@ func alphabet(n int, full bool) []alphaItem {
 	add("event_dkg_commit_confirm_received", "commit", "0", "x01", late)
 	add("event_dkg_deal_confirm_received", "deal", "0", "x02", late)
 	add("event_dkg_response_confirm_received", "response", "0", "x03", late)
-	add("event_dkg_master_key_confirm_received", "masterKey", "0", "xaa", late, "x50")
-	add("event_dkg_master_key_confirm_received", "masterKey", "1", "xbb", T(5), "x50") // mismatching key
-	add("event_dkg_master_key_confirm_received", "masterKey", "1", "xaa", T(5), "x51") // same key, other polynomial
+	add("event_dkg_master_key_confirm_received", "masterKey", "0", "xaa", late, polyTokA)
+	add("event_dkg_master_key_confirm_received", "masterKey", "1", "xbb", T(5), polyTokA) // mismatching key
+	add("event_dkg_master_key_confirm_received", "masterKey", "1", "xaa", T(5), polyTokExt) // same key, the polynomial extended by one commitment
+	add("event_dkg_master_key_confirm_received", "masterKey", "1", "xaa", T(5), "x51")       // same key, junk polynomial
 	add("event_dkg_commit_confirm_canceled_by_error", "dkgErr", "0", "-", T(2))
 	add("event_signing_partial_sign_received", "partialSigns", hs("B"), "0", T(7), "1", hs("m1"), "x21") // other batch id
 	add("event_signing_partial_sign_received", "partialSigns", hs("A"), "0", T(7), "0")                 // empty
@@ -484,7 +501,7 @@ func guidedWalks(w *fsmWorld, rng *rand.Rand, walks int, st *fsmStats) {
 		}
 		for _, p := range perm() {
 			noise()
-			step("event_dkg_master_key_confirm_received", "masterKey", fmt.Sprint(p), "xaa", T(5), "x50")
+			step("event_dkg_master_key_confirm_received", "masterKey", fmt.Sprint(p), "xaa", T(5), polyTokA)
 		}
 		step("event_signing_init", "default", T(6))
 		for b := 0; b < 3; b++ {
